@@ -9,9 +9,9 @@ open PvModel PvModel.Ledger PvModel.Vowner
 
 /-! ### WriteScope -/
 
-theorem writeParties_wf {s : State} {existing : Option Scope} {owners signers : List Addr} {evs vo : Addr}
-    {a : Auth} {used : List Addr}
-    (h : writeParties s existing owners signers evs vo = .ok (a, used)) : AuthWf s.grants a := by
+theorem writeParties_wf {s : State} {existing : Option Scope} {owners : List Party} {rollup : Bool}
+    {signers : List Addr} {evs vo : Addr} {a : Auth} {used : List Addr}
+    (h : writeParties s existing owners rollup signers evs vo = .ok (a, used)) : AuthWf s.grants a := by
   cases existing with
   | none =>
     simp only [writeParties] at h
@@ -27,12 +27,21 @@ theorem writeParties_wf {s : State} {existing : Option Scope} {owners signers : 
     · split at h
       · simp at h
       · split at h
-        · exact validateAllRequiredSigned_wf (authWf_init _) h
-        · simp at h; rw [← h.1]; exact authWf_init _
+        · split at h
+          · exact validateAllRequiredSigned_wf (authWf_init _) h
+          · simp at h; rw [← h.1]; exact authWf_init _
+        · exact validateAllRequiredPartiesSigned_wf (authWf_init _) h
 
-theorem validateWriteScope_spec {s : State} {id : ScopeId} {owners : List Addr} {vo : Addr}
+theorem deleteParties_wf {s : State} {e : Scope} {signers : List Addr} {a : Auth} {used : List Addr}
+    (h : deleteParties s e signers = .ok (a, used)) : AuthWf s.grants a := by
+  unfold deleteParties at h
+  split at h
+  · exact validateAllRequiredSigned_wf (authWf_init _) h
+  · exact validateAllRequiredPartiesSigned_wf (authWf_init _) h
+
+theorem validateWriteScope_spec {s : State} {id : ScopeId} {owners : List Party} {rollup : Bool} {vo : Addr}
     {signers : List Addr} {a : Auth} {agents : List Addr} (hinv : Inv s)
-    (h : validateWriteScope s id owners vo signers = .ok (a, agents)) :
+    (h : validateWriteScope s id owners rollup vo signers = .ok (a, agents)) :
     signers ≠ [] ∧ AuthWf s.grants a ∧
     (vo ≠ "" → ∀ o, HolderIs s.ledger id o → o ≠ some vo →
       agents = effectiveSigners s signers ∧
@@ -46,7 +55,7 @@ theorem validateWriteScope_spec {s : State} {id : ScopeId} {owners : List Addr} 
     | error e => rw [hev] at h; simp at h
     | ok existingVO =>
       rw [hev] at h; simp only at h
-      cases hp : writeParties s (findScope s id) owners signers (existingVO.getD "") vo with
+      cases hp : writeParties s (findScope s id) owners rollup signers (existingVO.getD "") vo with
       | error e => rw [hp] at h; simp at h
       | ok r =>
         obtain ⟨a1, used1⟩ := r
@@ -95,11 +104,11 @@ theorem validateWriteScope_spec {s : State} {id : ScopeId} {owners : List Addr} 
 theorem optAddr_ne {a : Addr} (h : a ≠ "") : optAddr a = some a := by simp [optAddr, h]
 theorem optAddr_empty : optAddr "" = none := by simp [optAddr]
 
-theorem write_step {s s' : State} {id : ScopeId} {owners : List Addr} {vo : Addr} {signers : List Addr}
-    (hinv : Inv s) (h : writeScope s id owners vo signers = .ok s') :
+theorem write_step {s s' : State} {id : ScopeId} {owners : List Party} {rollup : Bool} {vo : Addr}
+    {signers : List Addr} (hinv : Inv s) (h : writeScope s id owners rollup vo signers = .ok s') :
     Inv s' ∧ GoodStep s (.msg .write) (effectiveSigners s signers) s' ∧ (vo = "" → s'.ledger = s.ledger) := by
   unfold writeScope at h
-  cases hv : validateWriteScope s id owners vo signers with
+  cases hv : validateWriteScope s id owners rollup vo signers with
   | error e => rw [hv] at h; simp at h
   | ok r =>
     obtain ⟨a, agents⟩ := r
@@ -181,7 +190,7 @@ theorem validateDeleteScope_spec {s : State} {id : ScopeId} {signers : List Addr
     | some e =>
       rw [hf] at h; simp only at h
       have hhas : hasScope s id = true := by rw [← findScope_isSome, hf]; rfl
-      cases hp : validateAllRequiredSigned { grants := s.grants } signers .delete e.owners [] with
+      cases hp : deleteParties s e signers with
       | error er => rw [hp] at h; simp at h
       | ok r =>
         obtain ⟨a1, used1⟩ := r
@@ -198,7 +207,7 @@ theorem validateDeleteScope_spec {s : State} {id : ScopeId} {signers : List Addr
           | ok a3 =>
             rw [hc] at h; simp at h
             obtain ⟨rfl, rfl⟩ := h
-            have hw1 := validateAllRequiredSigned_wf (authWf_init _) hp
+            have hw1 := deleteParties_wf hp
             obtain ⟨_, hcase⟩ := validateScopeValueOwnersSigners_spec hw1 hv
             refine ⟨hsg, hhas, fun o ho => ?_⟩
             have := holderIs_unique ho ho0; subst this
